@@ -974,7 +974,7 @@ func init() {
 			c.Res.Rule = "counter histories: increments with ages from 0 ms to 70 days (bursts within one millisecond, ages next to the four roll-up thresholds), sorted and unsorted, zero and multi-megabyte deltas, roll-up forced at arbitrary operation counts and reached naturally after 1000 operations, op-only calls, DeltaBetween windows (random, at entry timestamps, reaching into the future), protobuf round trips, loads of arbitrary histories (unsorted, any label, negative deltas) followed by roll-ups and single doRollUp passes with arbitrary parameters; quota: 2–4 users with policy of self / other / none, 0–3 quotas, counters registered or not, traffic at the refusal boundary ±1 byte split over upload/download and over instants inside/outside the windows, isolation re-checks; dump/reload through the real files. Distinct = distinct (kind, size, total, roll-up count) resp. decision vectors."
 			c.Correspondence("ctr-*: pkg/metrics Counter (addWithTime, rollUp/doRollUp, DeltaBetween, loadCounterFromMetricPB, ToMetricPB/FromMetricPB, DumpMetricsNow/LoadMetricsFromDump) vs Mieru.Model.Counter with measured instants")
 			c.Correspondence("quota-check: pkg/protocol Session.checkQuota vs Mieru.Model.Quota.checkQuota")
-			c.Note("TODO(integrator): whole-system quota runs (refused session gets the quota status, nothing relayed; per-user byte accounting) need the in-memory network; not run here")
+			c.Note("whole-system quota and accounting runs are the extra stage c19_endpoint.go")
 			var cases []c19Case
 			if files, _ := filepath.Glob(filepath.Join(c.Corpus, "*.json")); len(files) > 0 {
 				sort.Strings(files)
